@@ -13,26 +13,27 @@ PROPS = ["C14", "C15"]
 MANIFEST = {
     "C14": dict(
         technique="Lean 4 proof: inductive invariants of the rotation model (abstract file system, _created_files, rename chain): over all op sequences for the Index scheme, under monotone-date premises for Date/DateAndTime, with proved counter-witnesses for what fails without them; extraction of the structure of RotatingSink.h; differential correspondence on the real RotatingFileSink in a scratch directory + property oracle on the real directory",
-        text="Machine-checked proof (Lean 4) about a model of RotatingSink (constructor with clean-up/recovery scan, write_log, _size_rotation, _time_rotation, _rotate_files): for the Index scheme and every sequence of writes (any size, any timestamp) and restarts (any limit, backup count, overwrite flag, open mode a / w-with-clean-up, frequency), with unrelated files present: every statement is appended whole to exactly one file and stays in exactly one file (renames move whole files, a rename never lands on an existing file); reading the retained files oldest to newest (strictly decreasing index, then the current file) gives the written sequence minus a prefix made of whole deleted files (nothing is deleted when overwriting is off); the current file exceeds the limit only if it holds a single statement or rotation has stopped; the number of rotated files never rises above max_backup_files; an append-mode restart recovers exactly the existing index sequence and continues it; unrelated files are never touched. Date/DateAndTime (…_partial): under the premises that the civil day/second of start instant and record timestamps never decreases and that unrecovered dated files in the directory are strictly older than the start, an inductive invariant gives, within a run and again after each restart, existence of all tracked files, deque order = name order of the scheme (earlier date older, same date larger index older), retained sequence = written sequence minus a prefix of whole deleted files, and rename targets absent or already vacated; proved counter-witnesses show what fails without the premises: non-monotone timestamps (F14), the cross-restart backup bound (F15), a backup set larger than a lowered max_backup_files (F16). Tied to the code by extracting ~30 structural facts of RotatingSink.h (trigger comparisons, order of rename/delete/open, oldest-first loop, recovery rules, defaults, validation) whose obligations are re-proved on every run, and by driving the real RotatingFileSink with generated op sequences (sizes limit±1, restarts, planted files) and comparing directory listing, per-file statement ids, _created_files, _file_size with the model after every operation.",
+        text="Machine-checked proof (Lean 4) about a model of RotatingSink (constructor with clean-up/recovery scan, write_log, _size_rotation, _time_rotation, _rotate_files): for the Index scheme and every sequence of writes (any size, any timestamp) and restarts (any limit, backup count, overwrite flag, open mode a / w-with-clean-up, frequency), with unrelated files present: every statement is appended whole to exactly one file and stays in exactly one file (renames move whole files, a rename never lands on an existing file); reading the retained files oldest to newest (strictly decreasing index, then the current file) gives the written sequence minus a prefix made of whole deleted files (nothing is deleted when overwriting is off); the current file exceeds the limit only if it holds a single statement or rotation has stopped; the number of rotated files never rises above max_backup_files and, with the extracted while-loop deletion (repair of F18), every rotation that takes place leaves at most max_backup_files rotated files even when the start recovered more; an append-mode restart recovers exactly the existing index sequence and continues it; unrelated files are never touched. Date/DateAndTime (…_partial): under the premises that the civil day/second of start instant and record timestamps never decreases and that unrecovered dated files in the directory are strictly older than the start, an inductive invariant gives, within a run and again after each restart, existence of all tracked files, deque order = name order of the scheme (earlier date older, same date larger index older), retained sequence = written sequence minus a prefix of whole deleted files, and rename targets absent or already vacated; proved counter-witnesses show what fails without the premises: non-monotone timestamps (F14), the cross-restart backup bound (F15); for the pinned one-deletion-per-rotation rule a proved counter-witness (F18, since repaired) shows a recovered set larger than max_backup_files never shrinking. Tied to the code by extracting the deletion rule (while vs if) and ~30 structural facts of RotatingSink.h (trigger comparisons, order of rename/delete/open, oldest-first loop, recovery rules, defaults, validation) whose obligations are re-proved on every run, and by driving the real RotatingFileSink with generated op sequences (sizes limit±1, restarts, planted files) and comparing directory listing, per-file statement ids, _created_files, _file_size with the model after every operation.",
         note="Naming scheme and base file name fixed for the life of a directory; FilenameAppendOption::None; fopen/rename failures not injected; uint64 wrap of timestamps ignored; w-mode restart without clean-up (remove_old_files=false) orphans the previous run's files — modelled and exercised, outside the Index theorem's premise.",
         ref="§5 C14, §7 F14 F15"),
     "C15": dict(
         technique="Lean 4 proof: grid invariant of _next_rotation_time for every start instant and every timestamp sequence, separation / sharing theorems on the rotation model, composition with the C14 invariant; extraction of the advance rule of _time_rotation; differential correspondence + schedule oracle (libc calendar arithmetic) on the real RotatingFileSink",
         text="Machine-checked proof (Lean 4) that for every start instant, every valid frequency/interval/daily time and every sequence of record timestamps, _next_rotation_time is always the first point of the schedule (first point computed from the start instant, then every period) strictly after every record seen so far; a record at or after that point starts a fresh file (unless rotation has stopped at the backup limit with overwriting off) and records before it are appended to the current file unless size rotation intervenes; the file rotated away is renamed to the suffix of its opening instant and keeps that suffix; all C14 invariants hold for time rotation too. The pinned advance rule record_ts + period is proved to violate the grid (F9 witness: start 22:13, daily 02:00, records at +9 h and +29 h). Tied to the code by extracting the shape of _time_rotation (>= trigger, loop from the scheduled point), _calculate_rotation_tp and _calculate_initial_rotation_tp, and by driving the real sink with timestamps at the rotation points ±1 ns and gaps of many periods, in GMT and in local time under several TZ zones, comparing _next_rotation_time, _open_file_timestamp and the directory after every write; an independent oracle recomputes the schedule with libc (timegm/mktime) and checks separation, sharing, suffixes and the grid.",
-        note="Theorems are for a constant UTC offset; in zones with DST the code adds 24 h, so a daily HH:MM schedule drifts by the DST shift (finding F17, exercised by the harness); a time rotation that finds the current file empty is skipped (the file keeps its earlier opening instant) — modelled, stated in the theorems.",
+        note="Theorems are for a constant UTC offset; in zones with DST the code adds 24 h, so a daily HH:MM schedule drifts by the DST shift (finding F19, exercised by the harness); a time rotation that finds the current file empty is skipped (the file keeps its earlier opening instant) — modelled, stated in the theorems.",
         ref="§5 C15, §7 F9"),
 }
 
 THEOREMS = {
     "C14": ["Rot.C14_index_invariant", "Rot.C14_index_sequence", "Rot.C14_index_write", "Rot.C14_index_exactly_one_file",
-            "Rot.C14_index_backup_bound", "Rot.C14_index_backup_bound_run", "Rot.C14_index_no_clobber",
+            "Rot.C14_index_backup_bound", "Rot.C14_index_backup_bound_run", "Rot.C14_index_backup_bound_after_rotation",
+            "Rot.C14_index_no_clobber",
             "Rot.C14_index_append_restart_recovers", "Rot.C14_limit", "Rot.C14_unrelated_untouched",
             "Rot.C14_any_scheme_write", "Rot.C14_dated_run_partial", "Rot.C14_dated_no_clobber_partial",
             "Rot.C14_dated_restart_partial", "Rot.monoSfx_of_sorted", "Rot.rotate_generic", "Rot.chain_generic",
             "Rot.C14_F14_nonmonotone_order_fails", "Rot.C14_F15_restart_bound_fails",
-            "Rot.C14_F16_lowered_max_never_shrinks", "Rot.rotate_index", "Rot.restart_inv", "Rot.applyMoves_get",
+            "Rot.C14_F18_lowered_max_never_shrinks", "Rot.rotate_index", "Rot.restart_inv", "Rot.applyMoves_get",
             "Obligations.rot_extraction_complete", "Obligations.rot_size_facts_hold", "Obligations.rot_defaults", "Obligations.rot_enums",
-            "Obligations.C14_extracted"],
+            "Obligations.rot_deletes_all_excess", "Obligations.C14_bound_extracted", "Obligations.C14_extracted"],
     "C15": ["Rot.C15_grid", "Rot.C15_grid_least", "Rot.C15_first_point", "Rot.C15_separates", "Rot.C15_shares",
             "Rot.C15_suffix_of_opening_instant", "Rot.C15_composes_with_C14", "Rot.C15_F9_record_anchored_breaks_grid",
             "Rot.advance_loop", "Rot.gridInv_step",
@@ -50,8 +51,8 @@ C15_COMPOSITION = ("dup-id", "torn", "not-in-cur", "order", "not-suffix", "backu
 FINDING_TEXT = {
     "F14": "Date/DateAndTime naming with non-monotone statement timestamps: a newer file gets an earlier date, name order no longer reproduces write order",
     "F15": "start-up recovery skipped (DateAndTime) / limited to today's files (Date): rotated files of earlier runs are not counted against max_backup_files across append-mode restarts, and the file deleted is not the oldest on disk",
-    "F16": "only one file is deleted per rotation: when an append-mode start finds more rotated files than max_backup_files the set never shrinks to the limit",
-    "F17": "daily rotation adds 24 h: in a zone with DST the HH:MM schedule drifts by the DST shift after a transition",
+    "F18": "only one file is deleted per rotation: when an append-mode start finds more rotated files than max_backup_files the set never shrinks to the limit (repaired in /repo by if -> while; fires only if that fix is reverted)",
+    "F19": "daily rotation adds 24 h: in a zone with DST the HH:MM schedule drifts by the DST shift after a transition",
 }
 
 
@@ -70,13 +71,13 @@ def classify(line):
     f = oracle_fields(line)
     k, sch = f["kind"], f.get("scheme")
     if k == "dst-drift" and f.get("dst") == "1":
-        return "F17"
+        return "F19"
     if sch in ("D", "T") and f.get("nonmono") == "1" and k in ("order", "not-suffix", "backup-bound", "backup-shrink", "not-in-cur", "dup-id"):
         return "F14"
     if sch in ("D", "T") and f.get("unrecovered") == "1" and k in ("not-suffix", "backup-bound", "backup-shrink"):
         return "F15"
     if k == "backup-shrink" and f.get("overstart") == "1":
-        return "F16"
+        return "F18"
     return None
 
 
@@ -129,7 +130,8 @@ def relevant_mismatch(prop, kind, fields):
 
 def driver_args(ex):
     r = ex.get("rot", {})
-    return ["rot", "trace", "1" if r.get("advancesFromSchedule") else "0", str(r.get("minLimit", 512))]
+    return ["rot", "trace", "1" if r.get("advancesFromSchedule") else "0", str(r.get("minLimit", 512)),
+            "1" if r.get("deletesAllExcess") else "0"]
 
 
 HARNESS = ("h3_rot", ["h3_rot.cpp"], ["-fno-access-control"])
@@ -236,7 +238,8 @@ def run(prop, tier):
     if st["hits"]:
         # prefer a hit outside every finding class; otherwise the first unlisted finding
         f9 = not ex.get("rot", {}).get("advancesFromSchedule", True)
-        st["hits"].sort(key=lambda h: (not (f9 and "f9_daily_gap" in h[0]), h[4] is not None))
+        f18 = not ex.get("rot", {}).get("deletesAllExcess", True)
+        st["hits"].sort(key=lambda h: (not ((f9 and "f9_daily_gap" in h[0]) or (f18 and "f18_lowered_max" in h[0])), h[4] is not None))
         label, ln, c, i, fid = st["hits"][0]
         content = "# %s\n# property oracle on the real code: %s\n# replay: python3 tools/check.py %s --replay <this file>\n%s" % (
             label, ln, prop, ops_only(c))
@@ -270,7 +273,7 @@ def run(prop, tier):
         "model_event_totals": st["totals"],
         "cases_skipped_by_driver_dst_zone": st["skipped_dst"],
         "harness_stats": st["stats"][-4:],
-        "extracted": {"advancesFromSchedule": r.get("advancesFromSchedule"), "minLimit": r.get("minLimit"),
+        "extracted": {"advancesFromSchedule": r.get("advancesFromSchedule"), "deletesAllExcess": r.get("deletesAllExcess"), "minLimit": r.get("minLimit"),
                       "facts_false": [k for k, v in r.get("sizeFacts" if prop == "C14" else "timeFacts", {}).items() if not v],
                       "facts": len(r.get("sizeFacts" if prop == "C14" else "timeFacts", {}))},
         "mismatching_lines": len(st["mism"]),
